@@ -296,7 +296,7 @@ fn scenario<C: MlsConfig>(rng: &mut Rng, mk: Mk<C>, out: &mut Out) {
 fn cross_group<C: MlsConfig>(rng: &mut Rng, mk: Mk<C>, out: &mut Out) {
     use mls_rs::mls_rs_codec::MlsDecode;
     let mut w: World<C> = new_world(Default::default(), "/tmp/vharness-scratch-c18");
-    for i in 0..2 {
+    for i in 0..3 {
         new_client(&mut w, mk, &format!("x{i}"), false, 5);
     }
     // group 1 lives in the world, group 2 beside it (same clients, same storage)
@@ -318,6 +318,19 @@ fn cross_group<C: MlsConfig>(rng: &mut Rng, mk: Mk<C>, out: &mut Out) {
     };
     w.members[0].group = Some(g1a);
     w.members[1].group = Some(g1b);
+    // a third member of group 1 that never was in group 2: it holds no epoch of that group and must refuse every commit
+    // that injects one of its resumption secrets
+    {
+        let kp = w.members[2].client.generate_key_package_message(Default::default(), Default::default(), None).unwrap();
+        let (_, o) = w.with_group(0, |g| g.commit_builder().add_member(kp)?.build());
+        let Some(o) = o else { return };
+        w.with_group(0, |g| g.apply_pending_commit());
+        w.with_group(1, |g| g.process_incoming_message(o.commit_message.clone()));
+        match o.welcome_messages.first().and_then(|wm| w.members[2].client.join_group(None, wm, None).ok()) {
+            Some((g, _)) => w.members[2].group = Some(g),
+            None => return,
+        }
+    }
     // group 2 advances and is written by both
     let k2 = rng.range(3, 6);
     for _ in 0..k2 {
@@ -336,6 +349,7 @@ fn cross_group<C: MlsConfig>(rng: &mut Rng, mk: Mk<C>, out: &mut Out) {
         let Some(o) = o else { return };
         w.with_group(0, |g| g.apply_pending_commit());
         w.with_group(1, |g| g.process_incoming_message(o.commit_message.clone()));
+        w.with_group(2, |g| g.process_incoming_message(o.commit_message.clone()));
         if a_writes {
             w.with_group(0, |g| g.write_to_storage());
         }
@@ -372,6 +386,15 @@ fn cross_group<C: MlsConfig>(rng: &mut Rng, mk: Mk<C>, out: &mut Out) {
         return;
     };
     w.with_group(committer, |g| g.apply_pending_commit());
+    // the member outside group 2 does not hold the injected secret
+    let before2 = comps(w.group(2));
+    let (r2, _) = w.with_group(2, |g| g.process_incoming_message(o.commit_message.clone()));
+    out.verdicts += 1;
+    if r2.ok() {
+        out.fails.push(format!("cross-group resumption PSK (epoch {e} of a group this member never was in): the outsider of that group accepted the commit (group 1 at epoch {})", w.group(2).current_epoch()));
+    } else if !World::<C>::changed(&before2, &comps(w.group(2))).is_empty() {
+        out.fails.push("cross-group resumption PSK: the member that rejected the commit changed".into());
+    }
     let (r, _) = w.with_group(receiver, |g| g.process_incoming_message(o.commit_message.clone()));
     out.verdicts += 1;
     let k1now = w.group(committer).current_epoch();
